@@ -308,6 +308,17 @@ void do_op2(const Pool &P, Priv &V, const BOp &op, Hash &h) {
     case 84: {      // wide_buffers: conversions between the wide pool buffers through strings
         ST::string a(c16), b(c32), c(cw); h.u8(a == b); h.u8(b == c); hb(h, a.to_utf32()); hb(h, b.to_utf16()); hb(h, c.to_wchar()); hb(h, a.to_latin_1(ST::substitute_invalid));
         break; }
+    case 86: {      // record_buffer: text read into a string of the thread's own - one record valid, the next (same length, same place if the allocator
+        // hands the block out again, to this thread or to another one) not - and constructed from in every validation mode
+        const ST::string &rec = P.strs[(op.a % 6) * 3 % P.strs.size()];
+        for (unsigned round = 0; round < 2; round++) {
+            std::string line(rec.c_str(), rec.size());
+            if (((op.c >> round) & 1) && line.size() > 3) { line[line.size() / 2] = (char)0xC3; line[line.size() / 2 + 1] = 'x'; }      // a lead byte without its continuation: same length
+            try { ST::string x(line.c_str(), line.size()); hs(h, x); } catch (const ST::unicode_error &) { h.str("rejected"); }
+            hs(h, ST::string::from_utf8(line.c_str(), line.size(), ST::substitute_invalid));
+            try { ST::string y = ST::string::from_utf8(line.c_str(), line.size(), ST::check_validity); h.u64(y.size()); } catch (const ST::unicode_error &) { h.str("rejected"); }
+        }
+        break; }
     default: {      // 85 nested_formatter: a user-defined formatter that formats re-entrantly, 1-28 levels deep (many format calls of one thread alive at once)
         try { hs(h, ST::format("{}|{}", Nest{(int)(1 + op.b % 28)}, s)); } catch (const std::exception &e) { h.str(e.what()); }
         break; }
